@@ -47,14 +47,14 @@ class Prop(BaseProp):
     HEADLINE = ["cmake_runs", "argv_records_checked", "trees_compared", "failure_cases", "template_checks"]
 
     def n_cases(self, tier):
-        return 96 if tier == "quick" else 1600
+        return 108 if tier == "quick" else 1800
 
     def setup_worker(self):
         runner.cminx()
 
     def run_case(self, idx, rng):
         res = CaseResult()
-        kind = ["file", "flat", "nested", "missing", "syntax", "lexer", "nested", "template"][idx % 8]
+        kind = ["file", "flat", "nested", "missing", "syntax", "lexer", "nested", "template", "nested-broken"][idx % 9]
         res.see("input_kinds", kind)
         with runner.sandbox() as sb:
             home = os.path.join(sb, "home")
@@ -76,21 +76,35 @@ class Prop(BaseProp):
                 cf = os.path.join(sb, "cminx-config.cmake")
                 with open(cf, "w") as f:
                     f.write(conf)
+                other = os.path.join(sb, "venv_prefix", "bin", "cminx")
+                os.makedirs(os.path.dirname(other))
+                with open(other, "w") as f:
+                    f.write("#!/bin/sh\necho other cminx\n")
+                os.chmod(other, 0o755)
+                prefix_line = f'set(CMAKE_PREFIX_PATH {q(os.path.join(sb, "venv_prefix"))})\nset(CMAKE_PROGRAM_PATH {q(os.path.dirname(other))})\n' \
+                    if idx // 9 % 2 else ""
+                res.see("template_with_other_cminx_on_prefix_path", bool(prefix_line))
                 drv = os.path.join(sb, "t.cmake")
                 with open(drv, "w") as f:
-                    f.write(f'include({q(cf)})\nif(NOT COMMAND cminx_gen_rst)\n message(FATAL_ERROR "no function")\nendif()\n'
+                    f.write(prefix_line + f'include({q(cf)})\nif(NOT COMMAND cminx_gen_rst)\n message(FATAL_ERROR "no function")\nendif()\n'
                             f'file(WRITE {q(os.path.join(sb, "exe.txt"))} "${{CMINX_EXECUTABLE}}")\n')
                 p = subprocess.run(["cmake", "-P", drv], capture_output=True, env=env, cwd=sb, timeout=120)
                 res.count("template_checks")
                 res.count("cmake_runs")
-                res.sig = sig_hash(["template", idx // 8 % 2])
+                res.sig = sig_hash(["template", idx // 9 % 2])
                 res.nontrivial = True
                 got = open(os.path.join(sb, "exe.txt")).read() if os.path.exists(os.path.join(sb, "exe.txt")) else None
                 if p.returncode != 0 or got is None or os.path.realpath(got) != os.path.realpath(shim):
                     res.violate("package-config-template", f"rc={p.returncode} CMINX_EXECUTABLE={got!r} expected {shim!r}: "
                                 f"{p.stderr.decode()[-300:]}", {"config": conf})
                 return res
-            tree = gen_tree(rng, max_depth={"flat": 0, "nested": 3}.get(kind, 1), noncmake=False, mixed_case=False, rich=True)
+            tree = gen_tree(rng, max_depth={"flat": 0, "nested": 3, "nested-broken": 2}.get(kind, 1), noncmake=False, mixed_case=False,
+                            rich=True, p_sub=1.0 if kind == "nested-broken" else 0.6)
+            if kind == "nested-broken":
+                # a syntax error in a directory that is NOT the last one walked: valid modules follow in later directories
+                tree.files["aaa_broken_first.cmake"] = "function(never_closed\n"
+                tree.dirs.add("zzz_last")
+                tree.files["zzz_last/fine.cmake"] = cmake_text("zzz_last/fine.cmake")
             inp_dir = os.path.join(sb, "w", "proj")
             tree.write(inp_dir)
             if kind in ("file", "syntax", "lexer"):
@@ -111,7 +125,7 @@ class Prop(BaseProp):
             fsrun.write_yaml(scfg, {"rst": {"file_extensions_in_titles": True}})
             pool = [[], ["-p", "Pfx"], ["-e", "e*.cmake"], ["-s", scfg], ["-p", "My Prefix"], ["-e", "a*", "-e", "b.cmake"],
                     ["-p", "P", "-s", scfg, "-e", "top.cmake"], ["-p", "x(y)"], ["-p", "$dollar"], ["-e", "*.md", "-p", "a b c"]]
-            extra = pool[(idx // 8 + rng.randrange(3)) % len(pool)]
+            extra = pool[(idx // 9 + rng.randrange(3)) % len(pool)]
             run_cwd = os.path.join(sb, "started_here")       # cmake (and the direct command line) run from here,
             os.makedirs(run_cwd)                              # the driver script lives one level up
             out1 = os.path.join(sb, "out_cmake")
@@ -185,9 +199,9 @@ class Prop(BaseProp):
                 if t1 != t2:
                     diff = sorted(k for k in set(t1) | set(t2) if t1.get(k) != t2.get(k))
                     res.violate("output-tree-differs-from-cli", f"{diff[:5]}", wit)
-            if kind in ("missing", "syntax", "lexer") and rc == 0:
+            if kind in ("missing", "syntax", "lexer", "nested-broken") and rc == 0:
                 res.violate(f"cli-accepts-faulty-input:{kind}", "direct run exits 0", wit)
-            if idx % 8 in (1, 2):
+            if idx % 9 in (1, 2):
                 res.sample = {"kind": kind, "extra": extra, "argv_seen": recs, "cmake_rc": p.returncode}
         return res
 
